@@ -16,7 +16,7 @@ from ..snap import abs_value
 from .c13 import Env, item_eq
 
 UNIVERSES = ["str", "int", "tuple_keyfn", "kitem", "kitem_typed", "str_typed", "tuple_typed", "unhashable_keyfn",
-             "repr_keyfn", "repr_keyfn", "mod_keyfn", "mod_keyfn"]
+             "repr_keyfn", "repr_keyfn", "mod_keyfn", "mod_keyfn", "selfkey_typed"]
 BINOPS = ["or", "and", "sub", "xor"]
 CMPOPS = ["le", "lt", "ge", "gt", "eq", "ne", "isdisjoint"]
 INPLACE = ["ior", "iand", "isub", "ixor"]
@@ -240,7 +240,14 @@ class C14(Check):
         built = [env.build(x) for x in init]
         m = {env.key(x): x for x in built}
         faults.begin(None)
-        s = env.new(list(built))
+        try:
+            s = env.new(list(built))
+        except BaseException as e:  # noqa: BLE001 (incl. the library's BaseTypeError): conforming, uniquely keyed items
+            if type(e).__name__ in ("KeyboardInterrupt", "SystemExit"):
+                raise
+            ctx.violate({"invariant": "construction_from_conforming_items_succeeds", "universe": universe, "exc": type(e).__name__},
+                        {"msg": strip_addr(str(e))[:200]})
+            return
         mm = self.observe_mismatch(env, s, m)
         if mm:
             ctx.violate({"invariant": "reads_agree_with_model", "op": "construct", "universe": universe}, {"mismatch": mm})
